@@ -1,0 +1,75 @@
+//go:build verif
+
+// Contracts for the deductive verifier in /verif (comment-only file; compiled out
+// unless the build tag `verif` is set, and even then contains no executable code).
+package conversion
+
+//@ spec le64at(b []byte, o int) uint64 = uint64(b[o]) | uint64(b[o+1])<<8 | uint64(b[o+2])<<16 | uint64(b[o+3])<<24 | uint64(b[o+4])<<32 | uint64(b[o+5])<<40 | uint64(b[o+6])<<48 | uint64(b[o+7])<<56
+//@ spec le32at(b []byte, o int) uint32 = uint32(b[o]) | uint32(b[o+1])<<8 | uint32(b[o+2])<<16 | uint32(b[o+3])<<24
+
+//@ func NodeKey
+//@   property C19
+//@   arith bv
+//@   ensures len(result) == 10 && result[0] == 'n' && result[9] == suffix
+//@   ensures le64at(result, 1) == id
+
+//@ func NodeIdFromKey
+//@   property C19
+//@   arith bv
+//@   ensures result1 == (len(key) == 10 && key[0] == 'n' && key[9] == suffix)
+//@   ensures result1 ==> result0 == le64at(key, 1)
+//@   ensures !result1 ==> result0 == 0
+
+//@ func Uint64ToBytes
+//@   property C19
+//@   arith bv
+//@   ensures len(result) == 8 && le64at(result, 0) == i
+
+//@ func BytesToUint64
+//@   property C19
+//@   arith bv
+//@   requires len(b) >= 8
+//@   ensures result == le64at(b, 0)
+
+//@ func SingleFloat32ToBytes
+//@   property C19
+//@   arith bv
+//@   ensures len(result) == 4 && sameFloat(f32frombits(le32at(result, 0)), f)
+
+//@ func BytesToSingleFloat32
+//@   property C19
+//@   arith bv
+//@   requires len(b) >= 4
+//@   ensures sameFloat(result, f32frombits(le32at(b, 0)))
+
+//@ func float32ToBytesSafe
+//@   property C19
+//@   arith bv
+//@   ensures len(result) == len(f)*4
+//@   ensures forall(k, 0, len(f), sameFloat(f32frombits(le32at(result, k*4)), f[k]))
+//@   loop 1 invariant rangeindex >= -1 && rangeindex < len(f) && len(b) == len(f)*4
+//@   loop 1 invariant forall(k, 0, rangeindex+1, sameFloat(f32frombits(le32at(b, k*4)), f[k]))
+
+//@ func bytesToFloat32Safe
+//@   property C19
+//@   arith bv
+//@   ensures len(result) == len(b)/4
+//@   ensures forall(k, 0, len(b)/4, sameFloat(result[k], f32frombits(le32at(b, k*4))))
+//@   loop 1 invariant rangeindex >= -1 && rangeindex < len(f) && len(f) == len(b)/4
+//@   loop 1 invariant forall(k, 0, rangeindex+1, sameFloat(f[k], f32frombits(le32at(b, k*4))))
+
+//@ func EdgeListToBytes
+//@   property C19
+//@   arith bv
+//@   ensures len(result) == len(edges)*8
+//@   ensures forall(k, 0, len(edges), le64at(result, k*8) == edges[k])
+//@   loop 1 invariant rangeindex >= -1 && rangeindex < len(edges) && len(b) == len(edges)*8
+//@   loop 1 invariant forall(k, 0, rangeindex+1, le64at(b, k*8) == edges[k])
+
+//@ func BytesToEdgeList
+//@   property C19
+//@   arith bv
+//@   ensures len(result) == len(b)/8
+//@   ensures forall(k, 0, len(b)/8, result[k] == le64at(b, k*8))
+//@   loop 1 invariant rangeindex >= -1 && rangeindex < len(edges) && len(edges) == len(b)/8
+//@   loop 1 invariant forall(k, 0, rangeindex+1, edges[k] == le64at(b, k*8))
